@@ -239,6 +239,74 @@ def _meta_lang():
     ]
 
 
+def _sweep_bounds():
+    return [
+        ("every bound from 0 to 130 and around powers of two", "ns = list(range(0, 131)) + [255, 256, 257, 511, 512, 1000, 1023, 1024, 1025, 4095, 4096, 65535, 65536]\nfor x, X in (('ab', '(?:ab)'), (AnyDigit(), '\\\\d'), (Either('a', 'bc'), '(?:a|bc)')):\n    for n in ns:\n"
+                                                               "        eq(Exactly(x, n), X + '{%d}' % n)\n        eq(AtLeast(x, n, False), X + '{%d,}?' % n)\n        eq(AtMost(x, n), X + '{,%d}' % n)\n        eq(AtLeastAtMost(x, n, n + 1), X + '{%d,%d}' % (n, n + 1))\n"
+                                                               "        eq(AtLeastAtMost(x, n, n), X + '{%d}' % n)\n        eq((Pregex(x) if isinstance(x, str) else x) * n, X + '{%d}' % n)\n        eq(AtLeastAtMost(x, 0, n, False), X + '{,%d}?' % n)\n"
+                                                               "        if n:\n            try:\n                r = AtLeastAtMost(x, n, n - 1)\n            except InvalidArgumentValueException:\n                pass\n            else:\n                raise AssertionError(str(r))"),
+        ("every number of operands from 1 to 48", "import string\npool = [c * (1 + i % 2) for i, c in enumerate(string.ascii_letters)]\npool[6] = 'x|y'; pool[12] = '.'; pool[29] = '('\nfor k in range(1, 49):\n    ops = pool[:k]\n    c = Concat(*ops)\n    assert c.is_exact_match(''.join(ops)), k\n"
+                                                  "    e = Either(*ops)\n    for o in ops:\n        assert e.is_exact_match(o), (k, o)\n    assert str(e).count('|') == k - 1 + (1 if k > 6 else 0), k\n    assert not e.is_exact_match(''.join(ops[:2]) if k > 1 else 'zz9')\n"
+                                                  "    if k > 1:\n        en = Enclose(ops[0], *ops[1:])\n        assert en.is_exact_match(''.join(reversed(ops[1:])) + ops[0] + ''.join(ops[1:])), k\n"
+                                                  "    if k <= 24:\n        f = FollowedBy('q', *ops)\n        assert str(f).count('(?=') == k, k\n        nf = NotPrecededBy('q', *ops)\n        assert str(nf).count('(?<!') == k, k\n"
+                                                  "    a = AnyFrom(*[chr(0x61 + 2 * i) for i in range(k)])\n    for i in range(k):\n        assert a.is_exact_match(chr(0x61 + 2 * i)), (k, i)\n    assert not a.is_exact_match(chr(0x62)) and not a.is_exact_match(chr(0x61 + 2 * k))"),
+    ]
+
+
+def _sweep_texts():
+    return [
+        ("texts of every length from 0 to 140", "import re\npats = [Capture(AnyLetter(), 'l') + Optional(Capture(AnyDigit())), Indefinite('ab'), MatchAtLineEnd(OneOrMore(AnyButFrom('\\n'))), Either('a', 'ab', 'abab')]\nunit = 'ab1 a\\nb2ab'\n"
+                                                "for p in pats:\n    cre = re.compile(str(p), 24)\n    pc = eval(repr(None)) or None\n    for L in range(0, 141):\n        t = (unit * 20)[:L]\n        ms = list(cre.finditer(t))\n"
+                                                "        assert p.get_matches_and_pos(t) == [(m.group(0), m.start(), m.end()) for m in ms], L\n        assert p.has_match(t) == bool(ms) and p.is_exact_match(t) == bool(cre.fullmatch(t)), L\n"
+                                                "        assert p.get_captures(t) == [m.groups() for m in ms], L\n        assert p.split_by_match(t) == [t[a:b] for a, b in zip([0] + [m.end() for m in ms], [m.start() for m in ms] + [len(t)])], L\n"
+                                                "        assert p.replace(t, '#', 3) == cre.sub('#', t, count=3), L\n        assert p.get_matches_with_context(t, 2, 3) == [t[max(m.start() - 2, 0):m.end() + 3] for m in ms], L"),
+        ("files of every length from 0 to 100 and around 4096 / 8192 / 65536", "import tempfile, os\np = Capture(AnyLetter()) + Optional(AnyDigit())\npc = Capture(AnyLetter()) + Optional(AnyDigit())\npc.compile()\nf = os.path.join(tempfile.mkdtemp(), 'f.txt')\nunit = 'ab1 a\\nb2\\u00e9 '\n"
+                                                                                "for L in list(range(0, 101)) + [4095, 4096, 4097, 8191, 8192, 8193, 16384, 65535, 65536, 65537, 131072]:\n    t = (unit * (L // len(unit) + 1))[:L]\n    open(f, 'w', encoding='utf-8', newline='').write(t)\n"
+                                                                                "    for q in (p, pc):\n        assert q.get_matches_and_pos(f, is_path=True) == q.get_matches_and_pos(t), L\n        assert q.has_match(f, is_path=True) == q.has_match(t) and q.is_exact_match(f, is_path=True) == q.is_exact_match(t), L\n"
+                                                                                "        assert q.get_captures(f, is_path=True) == q.get_captures(t) and q.split_by_match(f, is_path=True) == q.split_by_match(t), L\n        assert q.replace(f, '#', 2, is_path=True) == q.replace(t, '#', 2), L\n"
+                                                                                "        assert q.get_matches_with_context(f, 3, 3, is_path=True) == q.get_matches_with_context(t, 3, 3), L"),
+    ]
+
+
+def _sweep_numeric():
+    return [
+        ("every end from 0 to 1300 and every start below it", "for end in range(0, 1301):\n    p = Integer(0, end)\n    assert p.is_exact_match(str(end)) and not p.is_exact_match(str(end + 1)) and p.is_exact_match('0') and not p.is_exact_match('0' + str(end)), end\n"
+                                                              "    if end % 7 == 0:\n        s = end // 2\n        q = Integer(s, end)\n        assert q.is_exact_match(str(s)) and q.is_exact_match(str(end)) and (s == 0 or not q.is_exact_match(str(s - 1))) and not q.is_exact_match(str(end + 1)), (s, end)\n"
+                                                              "for start in range(0, 1201, 3):\n    q = NegativeInteger(start, 1200)\n    assert q.is_exact_match('-' + str(start)) and (start == 0 or not q.is_exact_match('-' + str(start - 1))) and not q.is_exact_match(str(start)), start"),
+        ("every fraction length and every word / numeral length from 1 to 40", "for lo in range(1, 41):\n    for hi in (lo, lo + 1, lo + 3, None):\n        d = Decimal(0, 9, lo, hi)\n        w = Word(lo, hi)\n        n = Numeral(16, lo, hi)\n        for k in (lo - 1, lo, lo + 1, lo + 3, lo + 4):\n"
+                                                                               "            exp = k >= lo and (hi is None or k <= hi)\n            if k > 0:\n                assert d.is_exact_match('5.' + '7' * k) == exp, (lo, hi, k)\n                assert w.is_exact_match('w' * k) == exp and n.is_exact_match('f' * k) == exp, (lo, hi, k)"),
+        ("every number of date formats from 1 to 48", "from mc.props.lang import all_formats, date_model, near\nf48 = all_formats()\nfor k in range(1, 49):\n    sel = f48[:k]\n    d = Date(sel)\n    for f in (f48[k - 1], f48[k % 48], f48[0]):\n        for (a, s1, b, s2, c) in near(f)[::11]:\n"
+                                                      "            t = a + s1 + b + s2 + c\n            assert d.is_exact_match(t) == any(date_model(g, a, s1, b, s2, c) for g in sel), (k, t)"),
+    ]
+
+
+def _after_exceptions():
+    return [
+        ("state after calls that raised", "import re\ndef snap(p):\n    t = 'ab a1 b2\\nab'\n    return (str(p), p.get_pattern(), p.get_matches(t), p.get_matches_and_pos(t), p.get_captures(t), p.is_exact_match('ab'), p.has_match(t), p.replace(t, '#', 1), p.split_by_match(t), str(Optional(p)), str(p + 'x'), str(Capture(p, 'n')))\n"
+                                          "bad = [lambda p: p.exactly(-1), lambda p: p.at_least_at_most(3, 1), lambda p: p.capture('1bad'), lambda p: p.get_matches(5), lambda p: p.replace('a', 'b', -1), lambda p: p.get_matches_with_context('a', -1),\n"
+                                          "       lambda p: p.get_matches('/nonexistent/dir/file.txt', is_path=True), lambda p: p.is_exact_match('/nonexistent/x', is_path=True), lambda p: PrecededBy('x', p.optional()), lambda p: NotFollowedBy(p, Pregex()),\n"
+                                          "       lambda p: p + 5, lambda p: p * 1.5, lambda p: Either(p, None), lambda p: p.concat(None), lambda p: list(p.iterate_captures_and_pos('/nonexistent/x', is_path=True)), lambda p: p.split_by_capture(None),\n"
+                                          "       lambda p: Capture(p, 'n').capture(5), lambda p: MatchAtStart(p).one_or_more(), lambda p: p.at_most(True), lambda p: p.get_compiled_pattern().sub(5, 5)]\n"
+                                          "for mk in (lambda: Capture(Either('a', 'b'), 'g') + Optional(AnyDigit()), lambda: Pregex('ab'), lambda: Indefinite(AnyLetter()), lambda: AnyFrom('a', 'b') | AnyDigit()):\n    for compiled in (False, True):\n"
+                                          "        p = mk()\n        if compiled:\n            p.compile()\n        before = snap(p)\n        raised = 0\n        for f in bad:\n            try:\n                f(p)\n            except Exception:\n                raised += 1\n"
+                                          "            assert snap(p) == before, bad.index(f)\n        assert raised >= 15, raised\n        q = mk()\n        assert snap(q)[:1] == before[:1] and snap(q)[2:] == before[2:]"),
+    ]
+
+
+def _generators():
+    return [
+        ("generators consumed partially, twice, interleaved", "import re\np = Capture(AnyLetter(), 'l') + Capture(Optional(AnyDigit()))\nt = 'a1 b c3 d4 e f6'\nfull = {m: list(getattr(p, m)(t)) for m in ('iterate_matches', 'iterate_matches_and_pos', 'iterate_captures', 'iterate_captures_and_pos', 'iterate_named_captures', 'iterate_named_captures_and_pos')}\n"
+                                                              "full['ctx'] = list(p.iterate_matches_with_context(t, 1, 2))\nassert full['iterate_matches'] == p.get_matches(t) and full['iterate_captures'] == p.get_captures(t) and full['ctx'] == p.get_matches_with_context(t, 1, 2)\n"
+                                                              "for compiled in (False, True):\n    if compiled:\n        p.compile()\n    its = {m: getattr(p, m)(t) for m in full if m != 'ctx'}\n    heads = {m: [next(g), next(g)] for m, g in its.items()}\n"
+                                                              "    for m in heads:\n        assert heads[m] == full[m][:2], m\n        assert list(getattr(p, m)(t)) == full[m], m\n        assert list(getattr(p, m)('zz9')) == list(getattr(p, m)('zz9')), m\n"
+                                                              "    for m, g in its.items():\n        assert list(g) == full[m][2:], m\n        assert list(g) == []\n"
+                                                              "    a, b = p.iterate_matches(t), p.iterate_matches('x7 y')\n    out = []\n    for _ in range(2):\n        out.append(next(a)); out.append(next(b))\n    assert out == ['a1', 'x7', 'b', 'y'], out\n"
+                                                              "    if compiled:\n        g = p.iterate_matches(t)\n        first = next(g)\n        p.get_compiled_pattern(discard_after=True)\n        assert [first] + list(g) == full['iterate_matches']\n        Pregex.purge()\n        assert p.get_matches(t) == full['iterate_matches']\n"
+                                                              "import io, contextlib\nbuf = io.StringIO()\nwith contextlib.redirect_stdout(buf):\n    p.print_pattern(); p.print_pattern(include_flags=True)\nlines = buf.getvalue().splitlines()\nassert lines[0] == p.get_pattern() and lines[1] == p.get_pattern(include_flags=True), lines\n"
+                                                              "assert re.fullmatch(p.get_pattern(), 'a1', 24) and p.get_pattern(include_flags=True).startswith('/') and p.get_pattern(True).endswith('/gmsu')"),
+    ]
+
+
 def _history():
     return [
         ("compile() does not change what long or astral patterns match", "for s in ('\\U0001f600', 'a\\U0001f600b', '\\U00010000', '\\U0010ffff\\U0001f468\\u200d\\U0001f469', '\\u202f', '\\u2028x', 'x' * 300 + '\\U0001f600', '\\ud7ff\\ue000', '\\x85\\xa0'):\n    t = 'q' + s + ' ' + s + s\n"
@@ -253,8 +321,8 @@ def _history():
 
 
 FAMILIES = {
-    'C01': _long_literals, 'C02': lambda: _q_cases()[:20] + _many_groups() + _nary() + _deep() + _long_literals()[1:3], 'C03': lambda: _nary() + _deep() + _long_literals() + _many_groups() + _classes_more()[:2] + _groups_scale() + FAMILIES['C10']()[-1:] + _refs_scale(),
-    'C04': _q_cases, 'C05': lambda: _nary()[3:], 'C06': lambda: _classes()[:1] + _classes_more()[:2], 'C07': lambda: _classes()[1:] + _classes_more()[2:], 'C08': lambda: _many_groups() + _deep()[1:] + _long_literals()[4:] + _groups_scale(),
+    'C01': _long_literals, 'C02': lambda: _q_cases()[:20] + _many_groups() + _nary() + _deep() + _long_literals()[1:3] + _sweep_bounds(), 'C03': lambda: _sweep_bounds()[1:] + _nary() + _deep() + _long_literals() + _many_groups() + _classes_more()[:2] + _groups_scale() + FAMILIES['C10']()[-1:] + _refs_scale(),
+    'C04': lambda: _q_cases() + _sweep_bounds()[:1], 'C05': lambda: _nary()[3:], 'C06': lambda: _classes()[:1] + _classes_more()[:2], 'C07': lambda: _classes()[1:] + _classes_more()[2:], 'C08': lambda: _many_groups() + _deep()[1:] + _long_literals()[4:] + _groups_scale(),
     'C09': lambda: _nary()[4:] + [("wide repetition of assertions", "for n in (10, 11, 100):\n    for mk in (lambda: MatchAtStart('a'), lambda: FollowedBy('a', 'b'), lambda: EnclosedBy('a', 'b'), lambda: MatchAtLineEnd('a' * 40)):\n"
                                     "        for q in (lambda x: Exactly(x, n), lambda x: x * n, lambda x: AtLeastAtMost(x, 1, n), lambda x: AtLeast(x, n)):\n            try:\n                r = q(mk())\n            except CannotBeRepeatedException:\n                continue\n            raise AssertionError(str(r))\n"
                                     "    assert str(Exactly('a' * 40 + '$', n)).endswith('{%d}' % n)\n"
@@ -269,8 +337,9 @@ FAMILIES = {
                                     "    for y in (AtLeastAtMost('a', w, w + 1), AtLeast('a', w), AtMost(AnyDigit(), w), Either('a' * w, 'a' * (w + 1)), Pregex('a' * w) + Optional('b')):\n"
                                     "        try:\n            r = NotPrecededBy('k', y)\n        except NonFixedWidthPatternException:\n            continue\n        raise AssertionError(str(r))\n"
                                     "assert PrecededBy('k', 'ab' * 50).get_matches('ab' * 50 + 'k') == ['k'] and PrecededBy('k', 'ab' * 50).get_matches('ab' * 49 + 'bk') == []")],
-    'C11': _matching, 'C12': lambda: _matching() + _many_groups()[:2], 'C13': lambda: _matching() + _many_groups()[4:], 'C14': _matching,
-    'C15': lambda: _numeric()[:2], 'C16': lambda: _numeric()[2:4], 'C17': lambda: _numeric()[4:], 'C18': _meta_lang, 'C19': _meta_lang, 'C20': _history,
+    'C11': lambda: _matching() + _after_exceptions() + _generators() + _sweep_texts(), 'C12': lambda: _matching() + _many_groups()[:2] + _after_exceptions() + _generators() + _sweep_texts()[:1],
+    'C13': lambda: _matching() + _many_groups()[4:] + _after_exceptions() + _sweep_texts(), 'C14': lambda: _matching() + _after_exceptions() + _generators() + _sweep_texts()[1:],
+    'C15': lambda: _numeric()[:2] + _sweep_numeric()[:1], 'C16': lambda: _numeric()[2:4] + _sweep_numeric()[1:2], 'C17': lambda: _numeric()[4:] + _sweep_numeric()[1:2], 'C18': _meta_lang, 'C19': lambda: _meta_lang() + _sweep_numeric()[2:], 'C20': lambda: _history() + _after_exceptions() + _generators(),
 }
 
 
